@@ -20,7 +20,7 @@ RULE = ('case = one history (sequence of encrypt/protect operations in one proce
         'distinct = distinct history descriptors; the evidence also counts distinct secret values observed')
 ASSUMPTIONS = ['unpredictability of os.urandom / OpenSSL RNG is not decidable by monitoring: freshness, size and provenance are observed',
                'ECDH ephemeral keys and RSA padding come from OpenSSL and are visible only through outputs']
-MIN_COUNTERS = {'quick': {'operations': 180, 'session_keys_checked': 120, 'prefixes_checked': 120, 'salts_checked': 40, 'ivs_checked': 15, 'ephemerals_checked': 60, 'urandom_calls_seen': 300, 'reprotect_operations': 5, 'chained_recipient_operations': 10, 'encryptions_with_long_lived_key_object': 60},
+MIN_COUNTERS = {'quick': {'operations': 180, 'session_keys_checked': 120, 'prefixes_checked': 120, 'salts_checked': 40, 'ivs_checked': 15, 'ephemerals_checked': 60, 'urandom_calls_seen': 300, 'reprotect_operations': 5, 'chained_recipient_operations': 10, 'encryptions_with_long_lived_key_object': 60, 'encryptions_of_a_long_lived_message_object': 80},
                 'thorough': {'operations': 3000}}
 BUDGET = {'quick': (600, 1500), 'thorough': (1800, 3600)}
 TECHNIQUE = 'runtime monitoring: history monitor with interposed os.urandom (recording proxy) + reference extraction of secrets from outputs; freshness/size/provenance invariants'
@@ -89,6 +89,7 @@ def run_case(ctx, d):
     seen = {'session_key': {}, 'prefix': {}, 'salt': {}, 'iv': {}, 'ephemeral': {}}
     persistent = {}
     pubs = {}
+    msgs = {}
     os.urandom = rec
     try:
         with warnings.catch_warnings():
@@ -130,7 +131,15 @@ def run_case(ctx, d):
                                 if octs in blob:
                                     ctx.fail('secret-integer-in-protected-export', {'op': op, 'field': f})
                     continue
-                msg = pgpy.PGPMessage.new(MSGS[op['msg']], compression=CompressionAlgorithm.Uncompressed)
+                # two out of three operations encrypt one long-lived plaintext object per text (an application that sends the same message object
+                # to several people, or again later), the others a fresh one
+                if i % 3 != 1:
+                    if op['msg'] not in msgs:
+                        msgs[op['msg']] = pgpy.PGPMessage.new(MSGS[op['msg']], compression=CompressionAlgorithm.Uncompressed)
+                    msg = msgs[op['msg']]
+                    ctx.count('encryptions_of_a_long_lived_message_object')
+                else:
+                    msg = pgpy.PGPMessage.new(MSGS[op['msg']], compression=CompressionAlgorithm.Uncompressed)
                 calg = getattr(SymmetricKeyAlgorithm, op['cipher'])
                 cid = encwork.CIPHERS[op['cipher']]
                 secrets = []
